@@ -110,6 +110,12 @@ class FakeSocket:
             item = item[:n]
         return item
 
+    def recv_into(self, buffer, nbytes=0, flags=0):
+        data = self.recv(nbytes or len(buffer))
+        n = len(data)
+        buffer[:n] = data
+        return n
+
     def send(self, data):
         if self.closed:
             self.misuse.append('send')
@@ -329,6 +335,13 @@ class ClockModule:
 
     def time(self):
         return self.env_ref[0].clock
+
+    def monotonic(self):
+        # same rate, unrelated origin (what CLOCK_MONOTONIC is): code that mixes the two clocks shows up
+        return self.env_ref[0].clock - 999000
+
+    def perf_counter(self):
+        return self.env_ref[0].clock - 999000
 
 
 ENV = [None]     # current Env, replaced per harness invocation
